@@ -80,7 +80,7 @@ func (g *tg) ident() T {
 }
 
 func (g *tg) num(allowNeg bool) T {
-	v := g.pick([]string{"0", "1", "2", "7", "42", "0x1f", "017", "9223372036854775807", "1.5", "2e3", "0.0", "10.25", "9223372036854775808"})
+	v := g.pick([]string{"0", "1", "2", "7", "42", "0x1f", "017", "9223372036854775807", "1.5", "2e3", "0.0", "10.25", "9223372036854775808", "inf", "NaN", "INF"})
 	return T{"t": "num", "neg": allowNeg && g.rng.Intn(4) == 0, "v": hx(v)}
 }
 
@@ -734,6 +734,22 @@ func genC06(e *emitter, tier string, seed int64) {
 		parseCase(e, "x = "+strings.Repeat("{\"k\": ", n)+"1"+strings.Repeat("}", n)+"\n", nil, "depth", "maps")
 		parseCase(e, strings.Repeat("if a {\n", n)+"x = 1\n"+strings.Repeat("}\n", n), nil, "depth", "blocks")
 		parseCase(e, "x = a"+strings.Repeat("[b", n)+strings.Repeat("]", n)+"\n", nil, "depth", "index")
+	}
+	// 1a'. a map literal keeps every entry it was written with (repeated keys included), in order
+	{
+		str := func(v string) T { return T{"t": "str", "m": false, "v": hx(v)} }
+		numT := func(v string) T { return T{"t": "num", "neg": false, "v": hx(v)} }
+		call := T{"t": "call", "q": false, "n": hx("f"), "args": []any{}}
+		for _, kvs := range [][]any{
+			{[]any{str(`"k"`), call}, []any{str(`"k"`), numT("2")}},
+			{[]any{str(`"a"`), numT("1")}, []any{str(`"b"`), numT("2")}, []any{str(`"a"`), numT("3")}, []any{str(`'a'`), numT("4")}},
+			{[]any{str(`""`), numT("1")}, []any{str(`""`), T{"t": "map", "kvs": []any{[]any{str(`"k"`), numT("1")}, []any{str(`"k"`), numT("1")}}}}},
+		} {
+			t := T{"t": "assign", "op": "eq", "lhs": []any{id("x")}, "rhs": []any{T{"t": "map", "kvs": kvs}}}
+			for _, lay := range []string{"canon", "tight", "eol"} {
+				parseCase(e, printProg(rng, []any{t}, lay), []any{t}, "map-entries", lay)
+			}
+		}
 	}
 	// 1b. the language reference's own examples (01-syntax-spec.md, "Binary Expression", "Parenthesized Expression")
 	num := func(v string) T { return T{"t": "num", "neg": false, "v": hx(v)} }
